@@ -280,8 +280,8 @@ pub fn run(tier: &str) -> i32 {
         o.sample(json!({"case": cases[ci].iter().map(|i| format!("{}={}", dom[*i].group, dom[*i].name)).collect::<Vec<_>>()}));
     }
     o.assumptions = vec!["pairs of options, not all combinations; triples only through the fixed 'most different' sets".into()];
-    if to {
-        o.machinery_errors.push(format!("time cap hit after {done}/{} cases", cases.len()));
+    if to && done < dom.len() + 1 {
+        o.machinery_errors.push(format!("time cap hit after {done}/{} cases, before every single value was checked", cases.len()));
     }
     if np < 2 {
         o.machinery_errors.push("vacuous: fewer than 2 distinct configurations".into());
